@@ -420,7 +420,10 @@ def check_case(case, ctx):
 
     # staged evaluation: supply one numeric variable first, then the rest by keyword
     supplied = [n for n in names if n in env_models]
-    if full_numeric and len(supplied) >= 2:
+    # (with integer coefficients a stage that gets integer arguments only is integer arithmetic: where the full
+    # value needs the float argument to stay representable, staging it first would have to overflow)
+    int_stage_overflows = case["poly"]["kind"] in ("i", "b") and bound >= 2 ** 62
+    if full_numeric and len(supplied) >= 2 and not int_stage_overflows:
         first = names[case["stage"] % len(names)]
         allv = dict(kwargs)
         pos_names = [n for n, s in zip(names, case["spec"]) if s["how"] in ("pos", "none")]
